@@ -145,7 +145,10 @@ PROPS = {
                     "arena, never a view of a pool slot it does not own, old slot returned exactly once -- with the string pool present through "
                     "its contracts (dealloc havocs the slot's bytes, so a use-after-return is visible) and the frame poisoned after each call; "
                     "Arena::reset / contains_ptr and the PoolSet contracts they rest on are proved under C11/C12.  Strings stored into a process_command "
-                    "builder are persistent-arena allocations (Verus, unit cmd_store, region typing of eval_process_command_call_mut)."),
+                    "builder are persistent-arena allocations (Verus, unit cmd_store, region typing of eval_process_command_call_mut).  STORE SITES (Verus, unit "
+                    "store_sites, extracted from src/runtime.rs): overwrite_slot for every value type, the new-slot branches of define_var / "
+                    "define_bound_local, array push, assign_index's element store and shout's output record each store a value that went through "
+                    "Value::promote whenever a frame arena is active (the store shims' precondition), modulo promote's own contract."),
         "not_covered": ("that every store site of the 1900-line evaluator goes through one of these primitives with the right mark (a whole-"
                         "evaluator frame argument); arrays and host values (array storage read back from arena memory is outside CBMC's "
                         "reach: > 5 min per harness); relocate_return_value; loop/call reset points. The defects found there (returning a host value; growing a "
@@ -157,9 +160,12 @@ PROPS = {
         "design_ref": "DESIGN.md section 5, C05",
         "summary": ("Arrays are values, element-string half: Value::clone_into never lets a copy share bytes with an owned string of the "
                     "original (checked for frame-, persistent- and pool-resident strings, with the owner's storage recycled afterwards), "
-                    "which is what array elements are cloned with; ArenaCow::promote gives stored elements their own slot (shared with C02)."),
-        "not_covered": ("separation of the array storage itself (Vec buffers) under clone_into/promote, nested index writes through "
-                        "assign_index / get_mutable_array / flatten_index_target, push/pop/reverse, call and return paths: values read back "
+                    "which is what array elements are cloned with; ArenaCow::promote gives stored elements their own slot (shared with C02).  "
+                    "Elements stored by push and by index assignment are promoted copies whatever their type (Verus, unit store_sites: "
+                    "eval_array_member_call_mut, assign_index), so an element never shares frame storage with the expression that produced it."),
+        "not_covered": ("separation of the array storage itself (Vec buffers) under clone_into/promote (Value::promote's array arm is assumed "
+                        "by the store_sites unit), which variable an index chain resolves to (get_mutable_array / flatten_index_target), "
+                        "pop/reverse, call and return paths: values read back "
                         "from arena memory make CBMC explore every Value variant and do not terminate (> 5 min per harness)."),
         "trusted_base": [KANI_TRUST, OS_TRUST, "PoolSet contracts (C12)"],
     },
